@@ -428,7 +428,10 @@ pub fn run(ops: &str, out: &mut dyn Write, mon: &mut dyn Write) {
                     .iter()
                     .filter(|s| {
                         let d = s.1;
-                        s.0 < 0xFFF0 && (d == local || (d == 0xFFFC && self_addr) || (d >= 0xFFFD && !role_master))
+                        // a non-FIR broadcast segment is always ignored by the assembler (it neither
+                        // joins nor resets a run), so it is not part of the accepted history
+                        let ignored_bc = d >= 0xFFFD && s.3 & 0x40 == 0;
+                        !ignored_bc && s.0 < 0xFFF0 && (d == local || (d == 0xFFFC && self_addr) || (d >= 0xFFFD && !role_master))
                     })
                     .collect();
                 for (src, bc, data) in &frags {
